@@ -345,6 +345,8 @@ impl Property for C05 {
             1 => "#(@-> 'int) ".to_string(),
             n => format!("#[{}] ", vec!["(@-> 'int)"; n].join(", ")),
         };
+        let neg_zero = rng.chance(1, 4);
+        h.u64(neg_zero as u64);
         let mut body: Vec<String> = Vec::new();
         match nchildren {
             0 => {}
@@ -352,7 +354,16 @@ impl Property for C05 {
             n => body.push(format!("=[{}]", (0..n).map(|i| format!("p{i}")).collect::<Vec<_>>().join(", "))),
         }
         for (k, srcs) in selects.iter().enumerate() {
-            body.push(format!("y{k} = ! [{}]", srcs.iter().map(|s| s.render()).collect::<Vec<_>>().join(", ")));
+            // a duration of 0 is sometimes written as a negative one (small, or beyond the i64 range): it has
+            // elapsed at once all the same
+            let rendered: Vec<String> = srcs
+                .iter()
+                .map(|s| match s {
+                    Src::Timeout(0) if neg_zero => if k % 2 == 0 { "-99999999999999999999999".to_string() } else { "-3".to_string() },
+                    s => s.render(),
+                })
+                .collect();
+            body.push(format!("y{k} = ! [{}]", rendered.join(", ")));
         }
         for d in 0..ndrain {
             body.push(format!("d{d} = ! [#('int | 'bin | ['int, 'int]), 0]"));
